@@ -24,6 +24,7 @@ func init() {
 			{ID: "C07.R3", Text: "SetPersistSeqNo: threshold' = max(old, new) for new ≠ 0, unchanged for 0; no other writer of the threshold", Run: c07r3},
 			{ID: "C07.R4", Text: "getMinSeqNo: 0 if all copies absent; 0 if two present copies differ in vbUUID; else min seqNo of the present copies (0..4 copies, exhaustive)", Run: c07r4},
 			{ID: "C07.R5", Text: "observe callback: replica-table stores and dispatch dominated by ¬closed ∧ generation unchanged ∧ err==nil; IsOutdated ⇔ ¬absent ∧ (vbUUID≠ ∨ seqNo≠); dispatch (vbID, getMinSeqNo(vbID)) routed to observers[vbID].SetPersistSeqNo", Run: c07r5},
+			{ID: "C07.R7", Text: "cluster-map generations: a snapshot is newer ⇔ (epoch, rev) is lexicographically greater; configWatch installs it and reconfigures ⇔ no snapshot yet ∨ newer, only when the snapshot could be read", Run: c07r7},
 			{ID: "C07.R6", Text: "close releases without delivering: observer.Close sets closed; listener called ⇔ ¬closed", Run: c07r6},
 		},
 	})
@@ -88,6 +89,7 @@ func c07r1(c *Ctx, id string) {
 		}
 	}
 	gateOAE(c, id, oi)
+	gateArgsRule(c, id, oi)
 	chk := w.Method("couchbase", oi.typ.Obj().Name(), "checkPersistSeqNo")
 	c.need(chk != nil, id, "observer.checkPersistSeqNo")
 	// the wait loop: every edge leaving the loop that polls checkPersistSeqNo is the true edge of that test
@@ -499,4 +501,105 @@ func gateOAE(c *Ctx, id string, oi *obsInfo) {
 		}
 		return ""
 	}, "wait(seq) ⇔ ¬Disabled, before the filter; needCatchup(seq) consulted ⇔ ¬isControl; result = isControl ∨ ¬needCatchup")
+}
+
+// gateArgsRule: which events are "control" for the gate — exactly the two that carry no document and (re)define the
+// snapshot (SnapshotMarker, SeqNoAdvanced) pass isControl=true; every other gated handler passes false. A data
+// event passed as control escapes the catch-up filter; a marker passed as data is dropped during catch-up and leaves
+// a stale snapshot behind.
+func gateArgsRule(c *Ctx, id string, oi *obsInfo) {
+	w := c.W
+	control := map[string]bool{"SnapshotMarker": true, "SeqNoAdvanced": true}
+	n := 0
+	for _, name := range sortedKeys(oi.handlers) {
+		h := oi.handlers[name]
+		g := gateCall(oi, h)
+		if g == nil {
+			continue
+		}
+		n++
+		got := w.Origin(g.Common().Args[2])
+		want := "const(false)"
+		if control[name] {
+			want = "const(true)"
+		}
+		c.Check(got == want, id, "control-flag:"+name, g.Pos(), "canForward(…, isControl="+got+")", name+" passes isControl="+got+" to the gate, expected "+want+" (control ⇔ snapshot marker / seqno-advanced)")
+	}
+	if n < 11 {
+		c.Undecided(id, "control-flag:floor", 0, "only %d gated handlers", n)
+	}
+}
+
+func c07r7(c *Ctx, id string) {
+	w := c.W
+	fn := w.Method("couchbase", "rollbackMitigation", "isConfigSnapshotNewerThan")
+	get := w.Method("couchbase", "rollbackMitigation", "getRevEpochAndID")
+	c.need(fn != nil && get != nil, id, "rollbackMitigation.isConfigSnapshotNewerThan / getRevEpochAndID")
+	recv, np := fn.Params[0].Name(), fn.Params[1].Name()
+	h := &Harness{Fn: fn, NoInline: map[string]bool{fname(get): true},
+		Groups: []Group{{Atoms: []string{"oldEpoch", "newEpoch"}}, {Atoms: []string{"oldRev", "newRev"}}},
+		Oracle: func(st *State, name string, args []AV, res *types.Tuple) ([]AV, bool) {
+			if name == fname(get) && len(args) == 2 {
+				switch avString(args[1]) {
+				case "&" + recv + ".configSnapshot":
+					return []AV{avInt{atom: "oldEpoch"}, avInt{atom: "oldRev"}}, true
+				case "&" + np:
+					return []AV{avInt{atom: "newEpoch"}, avInt{atom: "newRev"}}, true
+				}
+				return []AV{avOpaque{"revision of an unexpected snapshot " + avString(args[1])}, avOpaque{"rev"}}, true
+			}
+			return nil, false
+		}}
+	c.oae(id, fname(fn), fn.Pos(), h, func(st *State, out *Outcome) string {
+		if out.Panicked {
+			return "panics"
+		}
+		b, ok := out.Ret[0].(avBool)
+		want := st.Lt("oldEpoch", "newEpoch") || (st.Eq("oldEpoch", "newEpoch") && st.Lt("oldRev", "newRev"))
+		if !ok || b.b != want {
+			return fmt.Sprintf("returns %s, expected %v", avString(out.Ret[0]), want)
+		}
+		return ""
+	}, "newer ⇔ newEpoch > oldEpoch ∨ (newEpoch = oldEpoch ∧ newRev > oldRev)")
+	// configWatch
+	cw := w.Method("couchbase", "rollbackMitigation", "configWatch")
+	rc := w.Method("couchbase", "rollbackMitigation", "reconfigure")
+	c.need(cw != nil && rc != nil, id, "rollbackMitigation.configWatch / reconfigure")
+	hc := &Harness{Fn: cw, Bools: []string{"readErr==nil", recv + ".configSnapshot==nil", "newer"},
+		NoInline: map[string]bool{fname(fn): true, fname(rc): true},
+		Oracle: func(st *State, name string, args []AV, res *types.Tuple) ([]AV, bool) {
+			switch {
+			case strings.HasSuffix(name, ".GetDcpAgentConfigSnapshot"):
+				e := AV(avIface{sym: "readErr"})
+				if st.B("readErr==nil") {
+					e = avIface{isNil: true}
+				}
+				return []AV{avPtr{&cell{typ: types.Typ[types.Int], sym: "snap"}}, e}, true
+			case name == fname(fn):
+				return []AV{avBool{st.B("newer")}}, true
+			}
+			return nil, false
+		}}
+	r := cw.Params[0].Name()
+	hc.Bools[1] = r + ".configSnapshot==nil"
+	c.oae(id, fname(cw), cw.Pos(), hc, func(st *State, out *Outcome) string {
+		nr := 0
+		for _, e := range out.Trace {
+			if e.Name == fname(rc) {
+				nr++
+			}
+		}
+		want := st.B("readErr==nil") && (st.B(r+".configSnapshot==nil") || st.B("newer"))
+		if want != (nr == 1) || nr > 1 {
+			return fmt.Sprintf("reconfigure called %d times, expected %v", nr, want)
+		}
+		inst := out.Final(r + ".configSnapshot")
+		if want && (inst == nil || avString(inst) != "&snap") {
+			return "the new snapshot is not installed before reconfiguring"
+		}
+		if !want && inst != nil {
+			return "a snapshot is installed although it is not newer / could not be read"
+		}
+		return ""
+	}, "install + reconfigure ⇔ read ok ∧ (no snapshot yet ∨ newer)")
 }
